@@ -22,7 +22,7 @@ def signature(m):
 
 
 def nontrivial(inp, out):
-    return inp.startswith("seq ") and not out.startswith("GOPANIC")
+    return inp.startswith("seq ") and not out.startswith("GOPANIC") and out != "BADCASE"
 
 
 MANIFEST = dict(
